@@ -32,7 +32,7 @@ from typing import Any, Dict, List, Optional, Sequence, Tuple
 import numpy as np
 
 from pw_verif import actions, ref
-from pw_verif.engine import PrepFailed, Run, TOL_EXACT, TOL_TRUNC, site_of
+from pw_verif.engine import PrepFailed, Run, TOL_EXACT, TOL_EXPM, TOL_TRUNC, site_of
 from pw_verif.harness import LibRaised, Violation, libcall
 from pw_verif.sampler import SAMPLER
 from pw_verif.snap import Block, Malformed, Snapshot, bookkeeping_problems, snapshot, validity_problems
@@ -62,6 +62,64 @@ def align(pre: Snapshot, post: Snapshot, names: List[str]) -> Tuple[np.ndarray, 
     db = [post.dim_of(n) for n in names]
     common = [max(x, y) for x, y in zip(da, db)]
     return ref.pad(a, da, common), ref.pad(b, db, common), common
+
+
+
+def r5_trigger(pre: Snapshot, targets: Sequence[str], focks: Sequence[str]) -> bool:
+    """Root-cause model of known finding R5: at vector level the library's trace_out sums the
+    amplitudes of the other subsystems. True iff, for some Fock subsystem in `focks`, that
+    amplitude-sum vector (over the block obtained by merging the blocks of `targets`) is zero or
+    has a lower top level than the true reduced state."""
+    bidx = sorted({pre.where[t] for t in targets})
+    blocks = [pre.blocks[i] for i in bidx]
+    if any(b.rep == "matrix" for b in blocks):
+        return False
+    members: List[str] = []
+    dims: List[int] = []
+    psi = np.ones(1, complex)
+    for b in blocks:
+        r = b.rho()
+        # pure by construction: take the dominant eigenvector with the block's own amplitudes
+        if b.rep == "vector":
+            v = np.asarray(b.array, complex).reshape(-1)
+        else:
+            w_, vec = np.linalg.eigh(r)
+            v = vec[:, -1]
+        psi = np.kron(psi, v)
+        members += b.members
+        dims += b.dims
+    if len(members) < 2:
+        return False
+    t = psi.reshape(dims)
+    for f in focks:
+        ax = members.index(f)
+        other = tuple(i for i in range(len(dims)) if i != ax)
+        c = t.sum(axis=other)
+        true_diag = (np.abs(t) ** 2).sum(axis=other)
+        nz_c = np.nonzero(np.abs(c) > 1e-14)[0]
+        nz_t = np.nonzero(true_diag > 1e-28)[0]
+        if len(nz_c) == 0 or nz_c[-1] != nz_t[-1]:
+            return True
+    return False
+
+
+def r5_zero_sum(pre: Snapshot, targets: Sequence[str]) -> bool:
+    """amplitude-sum over the traced-out subsystems vanishes (vector-level blocks only)"""
+    bidx = sorted({pre.where[t] for t in targets})
+    blocks = [pre.blocks[i] for i in bidx]
+    if any(b.rep != "vector" for b in blocks):
+        return False
+    members, dims = [], []
+    psi = np.ones(1, complex)
+    for b in blocks:
+        psi = np.kron(psi, np.asarray(b.array, complex).reshape(-1))
+        members += b.members
+        dims += b.dims
+    other = tuple(i for i, m in enumerate(members) if m not in targets)
+    if not other:
+        return False
+    c = psi.reshape(dims).sum(axis=other)
+    return bool(np.linalg.norm(c) < 1e-12)
 
 
 def kraus_ops(kseed: int, dim: int, nops: int, unitary: bool) -> List[np.ndarray]:
@@ -227,6 +285,7 @@ class Machine:
             site["spread"] = len(set(blocks))
             site["reps"] = "/".join(sorted({pre.blocks[b].rep for b in blocks}))
             site["clss"] = "/".join(sorted({w.block_cls.get(t, "label") for t in targets}))
+        site["r5_trigger"] = r5_trigger(pre, targets, [t for t in targets if w.kind[t] == "fock"])
         tdims = [w.dim(t) if w.dim(t) > 0 else (int(w.obj[t].state) + 2 if isinstance(w.obj[t].state, int) else 2) for t in targets]
         raised = None
         try:
@@ -250,7 +309,7 @@ class Machine:
         got = ref.pad(post.rho, post.dims, post_c)
         want = ref.pad(exp, common, post_c)
         td = ref.trace_distance(got, want)
-        tol = TOL_TRUNC if name in ("Displace", "Squeeze") else TOL_EXACT
+        tol = TOL_TRUNC if name in ("Displace", "Squeeze") else (TOL_EXPM if name in ("BS",) else TOL_EXACT)
         if td > tol:
             trg = float(np.real(np.trace(got)))
             what = "trace" if abs(trg - 1) > 1e-6 and ref.trace_distance(got / trg, want) <= tol else "state"
@@ -430,6 +489,7 @@ class Machine:
         idx = [pre.names.index(t) for t in targets]
         want = ref.ptrace(pre.rho, pre.dims, idx)
         site["mixed_reduced"] = bool(ref.purity(want) < 1 - 1e-9)
+        site["r5_trigger"] = bool(site["rep"] == "vector" and (site["mixed_reduced"] or r5_zero_sum(pre, targets)))
         ntraced = sum(len(pre.blocks[b].members) for b in {pre.where[t] for t in targets}) - len(targets)
         site["ntraced"] = min(ntraced, 3)
         try:
